@@ -200,3 +200,105 @@ def h_root(ctx, cfg):
     ctx.prove("C05:rooting depth is zero outside the growing season", approx(z3, 0, 0))
     if ctx.feasible(z2 > zprev + 0.001):
         ctx.reach("roots-deepen")
+
+
+# ---------------------------------------------------------------------------------------------------------------- canopy
+def _cc_configs(tier):
+    out = []
+    cs = ["Maize", "Cotton"] if tier == "quick" else ["Maize", "Cotton", "Wheat", "Potato", "SugarBeet", "PaddyRice", "Tomato", "Quinoa"]
+    for c in cs:
+        for phase in ("pre-emergence", "growth", "growth-protected", "mid", "decline", "decline-earlysen", "off-season"):
+            out.append((f"{c}|{phase}", dict(crop=c, phase=phase)))
+    return out
+
+
+@harness("canopy_cover", modules=["aquacrop.solution.canopy_cover", "aquacrop.solution.cc_development", "aquacrop.solution.cc_required_time",
+                                  "aquacrop.solution.adjust_CCx", "aquacrop.solution.update_CCx_CDC"], props=["C05", "C04", "C12", "C16"],
+         configs=_cc_configs, abstract_nl=True, timeout_ms=10000, goals=["canopy-grows", "canopy-declines"])
+def h_canopy(ctx, cfg):
+    crop = season_crop(cfg["crop"])
+    soil, base = build_profile(["SandyLoam"] * 2, [0.1, 0.2])
+    prof = prof_for(ctx, base)
+    ccx, cc0 = float(crop.CCx), float(crop.CC0)
+    ph = cfg["phase"]
+    em, cde, sen, mat = int(crop.Emergence), int(crop.CanopyDevEnd), int(crop.Senescence), int(crop.Maturity)
+    rng = {"pre-emergence": (1, max(em - 1, 1)), "growth": (em, cde - 1), "growth-protected": (em, cde - 1), "mid": (cde + 1, sen - 1),
+           "decline": (sen, mat), "decline-earlysen": (sen + 1, mat), "off-season": (1, 1)}[ph]
+    dap = ctx.int("dap", rng[0], max(rng[0], rng[1]))
+    gs = ph != "off-season"
+    ic = types.SimpleNamespace()
+    ic.dap = dap; ic.delayed_cds = 0; ic.gdd_cum = 0.0; ic.delayed_gdds = 0.0
+    ic.th = ctx.const_arr([float(x) for x in base.th_fc]); ic.z_root = 0.2
+    ic.canopy_cover_ns = ctx.real("canopy_cover_ns", 0, ccx)
+    ic.canopy_cover = ctx.real("canopy_cover", 0, ccx)
+    ctx.assume(ic.canopy_cover <= ic.canopy_cover_ns)
+    ic.protected_seed = ph == "growth-protected"
+    ic.ccx_act = ctx.real("ccx_act", 0, ccx); ic.ccx_act_ns = ctx.real("ccx_act_ns", 0, ccx)
+    ic.ccx_w = ctx.real("ccx_w", 0, ccx); ic.ccx_w_ns = ctx.real("ccx_w_ns", 0, ccx)
+    ctx.assume(And(ic.canopy_cover <= ic.ccx_act, ic.canopy_cover_ns <= ic.ccx_act_ns)) if ph in ("mid", "decline", "decline-earlysen") else None
+    ic.crop_dead = False
+    ic.t_early_sen = ctx.int("t_early_sen", 1, 60) if ph == "decline-earlysen" else 0
+    ic.ccx_early_sen = ctx.real("ccx_early_sen", 0, ccx)
+    ic.cc0_adj = ctx.real("cc0_adj", cc0 * 1e-3, cc0)
+    ic.premat_senes = False
+    ic.cc_prev = 0.0; ic.canopy_cover_adj = 0.0; ic.canopy_cover_adj_ns = 0.0
+    cc_prev_state = ic.canopy_cover
+    et0 = ctx.real("et0", 0.1, 20)
+    snap = prof_snapshot(prof)
+
+    def ws(*a):
+        return tuple(ctx.fresh_real(f"Ks_{k}", 0, 1) for k in ("exp", "sto", "sen", "pol", "sto_lin"))
+    with stubbed({"aquacrop.solution.canopy_cover": {"root_zone_water": stub_root_zone_water, "water_stress": ws}}):
+        nc = MCC.canopy_cover(crop, prof, 0.1, ic, 1.0, et0, gs)
+    ctx.out("canopy_cover", nc.canopy_cover); ctx.out("canopy_cover_ns", nc.canopy_cover_ns)
+    if not gs:
+        ctx.prove("C05:canopy cover is zero outside the growing season", And(approx(nc.canopy_cover, 0, 0), approx(nc.canopy_cover_ns, 0, 0), approx(nc.canopy_cover_adj, 0, 0)))
+        return
+    finite = lambda v: not isinstance(v, symx.SNaN)
+    ctx.prove("C05:canopy cover and its companions are finite (no NaN)", finite(nc.canopy_cover) and finite(nc.canopy_cover_ns) and finite(nc.ccx_act) and finite(nc.cc0_adj))
+    if finite(nc.canopy_cover) and finite(nc.canopy_cover_ns):
+        ctx.prove("C05:canopy cover >= 0", nc.canopy_cover >= -1e-12)
+        ctx.prove("C05:canopy cover never exceeds the no-stress canopy", nc.canopy_cover <= nc.canopy_cover_ns + 1e-12)
+        if ph != "decline-earlysen":
+            # recovery from early senescence after the start of the senescence stage re-fits the decline curve through
+            # yesterday's cover (update_CCx_CDC): exp-of-exp arithmetic that the abstraction cannot bound - outside the claim
+            ctx.prove("C05:canopy cover <= CCx", nc.canopy_cover <= ccx + 1e-9)
+            ctx.prove("C05:no-stress canopy <= CCx", nc.canopy_cover_ns <= ccx + 1e-9)
+            ctx.prove("contract:ccx_act, ccx_w within [0, CCx]; cc0_adj within (0, CC0]",
+                      And(nc.ccx_act >= -1e-12, nc.ccx_act <= ccx + 1e-9, nc.ccx_w >= -1e-12, nc.ccx_w <= ccx + 1e-9, nc.cc0_adj <= cc0 + 1e-12))
+        ctx.prove("contract:cc_prev records yesterday's canopy cover", nc.cc_prev == cc_prev_state)
+        if ctx.feasible(nc.canopy_cover > cc_prev_state + 1e-4):
+            ctx.reach("canopy-grows")
+        if ctx.feasible(nc.canopy_cover < cc_prev_state - 1e-4):
+            ctx.reach("canopy-declines")
+    prove_prof_unchanged(ctx, prof, snap, "C12:canopy_cover")
+
+
+@harness("canopy_advection", modules=["aquacrop.solution.canopy_cover"], props=["C04", "C05"], configs=lambda tier: [(f"CCx={x}", dict(ccx=x)) for x in (0.75, 0.96, 0.98, 0.99)],
+         timeout_ms=20000)
+def h_advection(ctx, cfg):
+    """mid-season, no stress: canopy cover is carried over unchanged, so canopy_cover_adj is the micro-advection polynomial of a
+    symbolic canopy cover (exact arithmetic: one cubic in one variable)"""
+    crop = copy.copy(season_crop("Maize"))
+    crop.CCx = cfg["ccx"]
+    soil, base = build_profile(["SandyLoam"] * 2, [0.1, 0.2])
+    prof = prof_for(ctx, base)
+    ccx = cfg["ccx"]
+    ic = types.SimpleNamespace()
+    ic.dap = int(crop.CanopyDevEnd) + 3; ic.delayed_cds = 0; ic.gdd_cum = 0.0; ic.delayed_gdds = 0.0
+    ic.th = ctx.const_arr([float(x) for x in base.th_fc]); ic.z_root = 0.2
+    ic.canopy_cover = ctx.real("canopy_cover", 0, ccx); ic.canopy_cover_ns = ctx.real("canopy_cover_ns", 0, ccx)
+    ctx.assume(ic.canopy_cover <= ic.canopy_cover_ns)
+    ic.protected_seed = False; ic.ccx_act = ccx; ic.ccx_act_ns = ccx; ic.ccx_w = 0.0; ic.ccx_w_ns = 0.0; ic.crop_dead = False
+    ic.t_early_sen = 0; ic.ccx_early_sen = 0.0; ic.cc0_adj = float(crop.CC0); ic.premat_senes = False
+    ic.cc_prev = 0.0; ic.canopy_cover_adj = 0.0; ic.canopy_cover_adj_ns = 0.0
+
+    def ws(*a):
+        return (1.0, 1.0, 1.0, 1.0, 1.0)
+    with stubbed({"aquacrop.solution.canopy_cover": {"root_zone_water": stub_root_zone_water, "water_stress": ws}}):
+        nc = MCC.canopy_cover(crop, prof, 0.1, ic, 1.0, 5.0, True)
+    top = 1.72 * ccx - ccx ** 2 + 0.3 * ccx ** 3
+    ctx.out("canopy_cover_adj", nc.canopy_cover_adj)
+    ctx.prove("C04,contract:canopy cover adjusted for micro-advection within [0, 1.72CCx-CCx^2+0.3CCx^3]",
+              And(nc.canopy_cover_adj >= -1e-12, nc.canopy_cover_adj <= top + 1e-12, nc.canopy_cover_adj_ns >= -1e-12, nc.canopy_cover_adj_ns <= top + 1e-12))
+    ctx.prove("C05:mid-season canopy cover carried over unchanged", And(nc.canopy_cover == ic.canopy_cover))
